@@ -266,6 +266,12 @@ impl CodecWExec {
             )),
             _ => {}
         }
+        // (merge of helpers decw + prefill) a caller placeholder registered before `new_from_iovec` and still
+        // pending hides everything the decoder pushed (C04): `flatten` is `Err` by design and the prefilled-case
+        // oracle (`pre_final`) checks what is visible; the session comparison needs the whole output
+        if self.pre.caller_pending() {
+            return;
+        }
         if let (true, Some(d), Some(v)) = (verdict_ok, &want, v) {
             let mut all = self.drained.clone();
             match v.flatten() {
@@ -1458,6 +1464,10 @@ impl CodecWExec {
                 None => return false,
             },
         };
+        // (merge of helpers decw + prefill) the decoder session oracle measures each message against what the
+        // iovec had output when the message started: here the whole prefill (drained part included)
+        self.dec_held = self.prefill.clone();
+        self.dec_msg.clear();
         true
     }
 
@@ -1559,6 +1569,12 @@ impl CodecWExec {
     }
 
     fn dec_final(&mut self, so: &mut StepOut, v: &OwningIovec<'static>) {
+        // (merge of helpers decw + prefill) the decoder object lives on after an `Err`: once a call has failed,
+        // "a fresh decoder fed the WHOLE input" is no longer the reference (the session oracle of helper decw,
+        // `dec_finish_oracle`, compares the last message against what the iovec held when it started)
+        if self.dec_errors > 0 {
+            return;
+        }
         if self.pre.active || !self.prefill.is_empty() {
             let flat = v.flatten();
             self.pre_final(so, flat);
